@@ -132,23 +132,10 @@ def truthy(o, truth):
     return 'raises'
 
 
-def run(ctx):
-    repo, ck, res = ctx.repo, ctx.check, ctx.res
-    ck.assume('filter predicates over strings (suffix, regex, fnmatch, membership) are uninterpreted atoms keyed by their '
-              'canonical operands; the conjunction over concrete URLs and option subsets is not enumerated')
-    ck.assume('the accept_url plugin hook is user configuration and may override a verdict')
-    ck.rule('C02-D1', 'DemuxURLFilter.test_info consults every configured filter, records exactly the falsy results as '
-                      'failed, and the verdict is "no filter failed"')
-    ck.rule('C02-D2', 'each filter\'s decision table (abstract interpretation over truth/order atoms) equals the reference '
-                      'predicate written from the property statement, row by row')
-    ck.rule('C02-D3', 'a false filter verdict is overridden only for a redirect under strong redirects when the span-hosts '
-                      'filter is the single failure; verdicts handed to the hook are the filters\' (and robots\') verdicts')
-    ck.rule('C02-D4', 'every protocol-session start in the processors is control-dependent on a true verdict for the '
-                      'request about to be sent, re-evaluated for every redirect hop')
-    ck.rule('C02-D5', 'each scope option constructs its filter with the right options in the right parameter positions '
-                      'under the right enabling condition; the span-hosts filter joins the list the demux filter iterates')
 
-    # ------------------------------------------------------------------ D2
+def d2_filter_tables(ctx):
+    """Decision tables of the 13 filter classes and their helper predicates against the reference predicates (shared with C01)."""
+    repo, ck = ctx.repo, ctx.check
     total_rows = 0
     for name, ref in FILTERS:
         fi = repo.func('%s:%s' % (UF, name))
@@ -201,6 +188,25 @@ def run(ctx):
                                                      'cover /private/secret.html, which is then requested)' if wild else ''))
     ck.expect(not bad and len(leaves) >= 4, 'C02-D2', sd.qual, 'is_subdir table (%d rows)' % len(leaves),
               'is_subdir differs from the reference: %s' % '; '.join(bad[:2]), sd.loc())
+
+def run(ctx):
+    repo, ck, res = ctx.repo, ctx.check, ctx.res
+    ck.assume('filter predicates over strings (suffix, regex, fnmatch, membership) are uninterpreted atoms keyed by their '
+              'canonical operands; the conjunction over concrete URLs and option subsets is not enumerated')
+    ck.assume('the accept_url plugin hook is user configuration and may override a verdict')
+    ck.rule('C02-D1', 'DemuxURLFilter.test_info consults every configured filter, records exactly the falsy results as '
+                      'failed, and the verdict is "no filter failed"')
+    ck.rule('C02-D2', 'each filter\'s decision table (abstract interpretation over truth/order atoms) equals the reference '
+                      'predicate written from the property statement, row by row')
+    ck.rule('C02-D3', 'a false filter verdict is overridden only for a redirect under strong redirects when the span-hosts '
+                      'filter is the single failure; verdicts handed to the hook are the filters\' (and robots\') verdicts')
+    ck.rule('C02-D4', 'every protocol-session start in the processors is control-dependent on a true verdict for the '
+                      'request about to be sent, re-evaluated for every redirect hop')
+    ck.rule('C02-D5', 'each scope option constructs its filter with the right options in the right parameter positions '
+                      'under the right enabling condition; the span-hosts filter joins the list the demux filter iterates')
+
+    # ------------------------------------------------------------------ D2
+    d2_filter_tables(ctx)
 
     # ------------------------------------------------------------------ D1
     ti = repo.func(UF + ':DemuxURLFilter.test_info')
@@ -464,6 +470,7 @@ def run(ctx):
                     ck.ok('C02-D4', f.qual, '%s: %s' % (norm_text(c)[:60], allowed[f.qual]))
                     if f.qual.endswith('RobotsTxtChecker.fetch_robots_txt'):
                         _robots_hops(ctx, f, c)
+                        _robots_origin(ctx, f)
                 elif f.qual == FTP + '._fetch_parent_path':
                     # the request listed is the parent directory of the item, not the item the verdict was computed for
                     ck.bad('C02-D4', f.qual, 'start_listing(parent directory) without a filter verdict',
@@ -695,3 +702,20 @@ def _robots_hops(ctx, f, start_call):
     ck.expect(p is None, 'C02-D4', f.qual, 'redirect hops of the robots.txt request are inspected before they are requested',
               'the robots.txt request follows redirects to any host and path (the loop restarts the session without looking at the next '
               'request): a URL that is neither the control file of the origin nor accepted by the filters is requested', f.loc(start_call))
+
+
+def _robots_origin(ctx, f):
+    """The exception covers the control file *of the origin being visited*: scheme, host and port of the robots.txt URL are
+    those of the request (hostname_with_port, not hostname: another port is another origin, one that no filter was asked about)."""
+    ck = ctx.check
+    n = 0
+    for c in U.calls(f.node):
+        if U.attr_name(c) == 'format' and isinstance(c.func.value, ast.Constant) and isinstance(c.func.value.value, str) and 'robots.txt' in c.func.value.value:
+            n += 1
+            attrs = [a.attr if isinstance(a, ast.Attribute) else None for a in c.args]
+            ok = c.func.value.value.replace('{0}', '{}').replace('{1}', '{}') == '{}://{}/robots.txt' and attrs == ['scheme', 'hostname_with_port'] \
+                and all(norm_text(a.value) == norm_text(c.args[0].value) for a in c.args)
+            ck.expect(ok, 'C02-D4', f.qual, "robots.txt URL = '{}://{}/robots.txt'.format(scheme, hostname_with_port) of the request",
+                      'robots.txt is requested from %s: not the origin (scheme, host, port) of the URL being visited' % norm_text(c)[:90], f.loc(c))
+    if n == 0:
+        ck.bad('C02-D4', f.qual, 'robots.txt URL built from the request', 'the construction of the robots.txt URL was not recognised', f.loc())
